@@ -2,6 +2,7 @@ import FlowRecord.Model.Selector.Interp
 import FlowRecord.Model.Selector.Ref
 import FlowRecordProofs.Lemmas.SelectorAgree
 import FlowRecordProofs.Lemmas.SelectorCompiled
+import FlowRecord.Gen.Pipeline
 /-!
 C07 — both selector engines compute the Python meaning of the expression.
 
@@ -144,6 +145,17 @@ theorem C07_tmatch_in_counterexample :
   exact ⟨P, .recv "t" [], .compare (.attr (.name "Type") "varint") [("In", .list [.const (.int 7)])], rfl, rfl⟩
 
 -- Non-vacuity: `Supported` is inhabited by real selectors, `Good` holds on them, and the evaluators compute.
+/-- The engines are handed the expression TEXT the caller gave: `make_selector` (what the readers, `record_stream` and
+    rdump call) passes a text selector to `CompiledSelector(selector)` / `Selector(selector)` as it is - nothing
+    normalises, strips or rewrites it on the way - and an interpreted selector is recompiled from its own
+    `expression_str`. (The regenerated if-chain of `make_selector`.) -/
+theorem C07_make_selector_hands_over_the_text :
+    Gen.makeSelectorChain = [("not selector", "ret = None"),
+      ("isinstance(selector, string_types)", "ret = CompiledSelector(selector) if force_compiled else Selector(selector)"),
+      ("isinstance(selector, Selector)", "if force_compiled:\n    ret = CompiledSelector(selector.expression_str)")] ∧
+    Gen.makeSelectorDefaultIsArgument = true := by
+  constructor <;> decide +kernel
+
 namespace C07_nonvacuous
 def P0 : Prim :=
   { truthy := fun v => match v with | .bool b => b | .none => false | .int i => i != 0 | _ => true,
